@@ -220,6 +220,17 @@ def copy_sharing(ctx, d1):
                             elif isinstance(v, ast.IfExp) and any(isinstance(x, ast.Call) and src(x.func) == 'np.array' for x in (v.body, v.orelse)):
                                 kinds.setdefault(t.attr, 'index-array')
             break
+        # fields updated in place by methods of this class hierarchy are mutable whatever their constructor looks like
+        for k in c.mro():
+            for meth in list(k.methods.values()) + list(k.setters.values()):
+                for n in walk_no_nested(meth.node):
+                    tgt = None
+                    if isinstance(n, ast.AugAssign) and isinstance(n.target, ast.Attribute) and src(n.target.value) == 'self':
+                        tgt = n.target.attr
+                    if isinstance(n, ast.Subscript) and isinstance(n.ctx, ast.Store) and isinstance(n.value, ast.Attribute) and src(n.value.value) == 'self':
+                        tgt = n.value.attr
+                    if tgt in ('_X', '_stoichiometry') and kinds.get(tgt) not in ('list', 'ndarray'):
+                        kinds[tgt] = 'array updated in place'
         # X setter of Reaction stores float(X): immutable
         ps, _ = run_paths(f.node, decide=lambda t, s: False if src(t) == 'basis' else None)
         p = [q for q in ps if not q.raised][0]
@@ -233,6 +244,13 @@ def copy_sharing(ctx, d1):
             kind = kinds.get(fld)
             vnode = e.stmt.value if isinstance(e.stmt, ast.Assign) else None
             deep = kind == 'list' and _elements_mutated_in_place(prog, fld)
+            if vnode is not None and src(vnode) == 'self.X':
+                # resolve the property: an element read (self._X[i]) is a value, a bare self._X is the shared array
+                g = prog.find_method(c, 'X')
+                rets = [r for r in walk_no_nested(g.node) if isinstance(r, ast.Return)] if g else []
+                if rets and all(isinstance(r.value, ast.Subscript) for r in rets):
+                    d1.ok(cons, '%s: taken by value through the X property (element read %s)' % (fld, src(rets[0].value)), f, e.stmt)
+                    continue
             verdict, why = _copied(vnode, fld, kind, deep)
             if verdict:
                 d1.ok(cons, '%s: %s' % (fld, why), f, e.stmt)
@@ -250,7 +268,7 @@ def _copied(v, fld, kind, deep):
         if kind == 'list' and not tests_list:
             b, wb = _copied(v.orelse, fld, kind, deep)
         return (a and b), (wa if not a else wb if not b else 'copied in both branches (%s)' % s)
-    if s in ('self.' + fld, 'self.' + fld.lstrip('_')) and kind in ('list', 'ndarray'):
+    if s in ('self.' + fld, 'self.' + fld.lstrip('_')) and kind in ('list', 'ndarray', 'array updated in place'):
         return False, 'the copy shares the mutable %s %s with the original' % (kind, fld)
     if s == 'self.' + fld:
         return True, 'shared but immutable here (%s)' % (kind or 'scalar')
